@@ -9,7 +9,8 @@ MANIFEST = dict(
          "capacity 0 or when it comes first (partial: for capacity >= 1 the schedule 'goroutine first' refuses it - witness theorem; a finding on the code only with the park point applied); "
          "FromChannel delivers every received value in order then Complete, nothing after unsubscription, close(done) once, never stuck in a receive once done is closed; Collect = (values, error); "
          "ToSlice/ToMap/Materialize;Dematerialize by the operator machines. Tie: kind=chan (every script and ending x capacities 0-3 x unsubscription at every point, equality with the model under a "
-         "canonical schedule) + kind=chanv oracles on slow/stalled/stopping consumers, racing and early unsubscription, abandoned channels.",
+         "canonical schedule) + kind=chanv oracles on slow/stalled/stopping consumers, racing and early unsubscription, abandoned channels."
+         ' FromChannel and the hand-off bridges also under an already cancelled subscription context (cc=1): a done context does not end a stream.',
     technique="Lean 4 proof (invariants of a producer/consumer/unsubscriber transition system over a bounded FIFO, induction over arbitrary schedules) + differential correspondence + schedule-dependent oracles",
     ref='5/C17')
 
